@@ -411,9 +411,9 @@ validated against.  Independent of names of locals and private helpers, comments
 annotations, message texts, temporaries, hoisted invariants, comprehension vs loop. -/
 theorem C12_gen_structure :
     Gen.C12.fp_file = [("wrap_string", 35419432600929693), ("is_binary", 49626307172125430), ("is_text", 19259285616825936), ("is_open_compatible", 37630586446707519), ("File.read", 49328886594227237), ("File.write", 31799960226389538), ("TextFile.__init__", 69306437034382077), ("TextFile.read", 52120078402071960), ("TextFile.read_iter", 766314282259654), ("TextFile.write", 55057777619693830), ("TextFile.write_iter", 36939992801995813), ("TextFile.__copy_fill__", 6315171286208202), ("TextFile.__str__", 4419374427646216)] ∧
-    Gen.C12.fp_fasta_file = [("FastaFile.__init__", 11559488786374512), ("FastaFile.__copy_create__", 14260330013813324), ("FastaFile.__copy_fill__", 12325213545439180), ("FastaFile.read", 26051572126232406), ("FastaFile.__setitem__", 15298155075820850), ("FastaFile.__getitem__", 26497480484120308), ("FastaFile.__delitem__", 51916195431509548), ("FastaFile.__len__", 67197355867975694), ("FastaFile.__iter__", 13476026621538461), ("FastaFile.__contains__", 3138836788283485), ("FastaFile.read_iter", 33375523047882932), ("FastaFile.write_iter", 36768792924452964)] ∧
+    Gen.C12.fp_fasta_file = [("FastaFile.__init__", 11559488786374512), ("FastaFile.__copy_create__", 14260330013813324), ("FastaFile.__copy_fill__", 12325213545439180), ("FastaFile.read", 26051572126232406), ("FastaFile.__setitem__", 15298155075820850), ("FastaFile.__getitem__", 26497480484120308), ("FastaFile.__delitem__", 51916195431509548), ("FastaFile.__len__", 67197355867975694), ("FastaFile.__iter__", 13476026621538461), ("FastaFile.__contains__", 3138836788283485), ("FastaFile.read_iter", 33375523047882932), ("FastaFile.write_iter", 30297638909034209)] ∧
     Gen.C12.fp_fasta_convert = [("get_sequence", 27097936347591233), ("get_sequences", 15109437369935731), ("set_sequence", 14777882798964464), ("set_sequences", 65240910253567931), ("get_alignment", 50172798922406728), ("set_alignment", 19771020133285036)] ∧
-    Gen.C12.fp_fastq_file = [("FastqFile.__init__", 24967520218892889), ("FastqFile.__copy_create__", 40941349759598167), ("FastqFile.__copy_fill__", 12325213545439180), ("FastqFile.read", 5873035550019428), ("FastqFile.get_seq_string", 18731499886280674), ("FastqFile.get_quality", 47514378847239196), ("FastqFile.__setitem__", 65831970734693474), ("FastqFile.__getitem__", 36364006990984904), ("FastqFile.__delitem__", 55488951866436936), ("FastqFile.__len__", 67197355867975694), ("FastqFile.__iter__", 13476026621538461), ("FastqFile.__contains__", 3138836788283485), ("FastqFile.read_iter", 15807796335088371), ("FastqFile.write_iter", 17563175788785296)] ∧
+    Gen.C12.fp_fastq_file = [("FastqFile.__init__", 24967520218892889), ("FastqFile.__copy_create__", 40941349759598167), ("FastqFile.__copy_fill__", 12325213545439180), ("FastqFile.read", 5873035550019428), ("FastqFile.get_seq_string", 18731499886280674), ("FastqFile.get_quality", 47514378847239196), ("FastqFile.__setitem__", 65831970734693474), ("FastqFile.__getitem__", 36364006990984904), ("FastqFile.__delitem__", 55488951866436936), ("FastqFile.__len__", 67197355867975694), ("FastqFile.__iter__", 13476026621538461), ("FastqFile.__contains__", 3138836788283485), ("FastqFile.read_iter", 15807796335088371), ("FastqFile.write_iter", 65264733610238904)] ∧
     Gen.C12.fp_fastq_convert = [("get_sequence", 14449425206102564), ("get_sequences", 14962941915508152), ("set_sequence", 63610318038703658), ("set_sequences", 15813476301234174)] ∧
     Gen.C12.fp_gb_annotation = [("get_annotation", 55546838965727864), ("set_annotation", 19514761422724229)] ∧
     Gen.C12.fp_gb_sequence = [("get_raw_sequence", 44050919668491007), ("get_sequence", 36692769385835443), ("get_annotated_sequence", 60394071482171264), ("set_sequence", 40583655808820566), ("set_annotated_sequence", 1037099722766856)] ∧
@@ -423,6 +423,12 @@ theorem C12_gen_structure :
     Gen.C12.fp_gff_convert = [("get_annotation", 3242169437606570), ("set_annotation", 26582119032847406)] ∧
     Gen.C12.fp_general = [("load_sequence", 17620388700019868), ("save_sequence", 68738560978143839), ("load_sequences", 54461000397802422), ("save_sequences", 52301574359472378)] := by
   refine ⟨rfl, rfl, rfl, rfl, rfl, rfl, rfl, rfl, rfl, rfl, rfl, rfl⟩
+
+/-- Every private helper / global of the anchored source that the adapter and the oracles call directly
+(FASTQ score encoder and decoder, GenBank location printer and parser, the ORIGIN start reader, the GFF
+line writer, the `safe` set, the offset table) was found by one of its structural traits: no case had
+to be judged without its `ops`, no oracle had to abstain. -/
+theorem C12_gen_helpers_found : Gen.C12.helpersMissing = [] := rfl
 
 /-! ## Non-vacuity -/
 
